@@ -14,16 +14,8 @@ func (v *vc) smtRelaxed(ob *obligation) string {
 		b.WriteString(d)
 		b.WriteByte('\n')
 	}
-	for i, l := range v.eng.contracts.smt {
-		if strings.Contains(l, "(forall") || strings.Contains(l, "(exists") {
-			continue
-		}
-		if p := v.eng.contracts.smtPkg[i]; p != "" && (v.fc == nil || p != v.fc.pkgPath) {
-			continue
-		}
-		b.WriteString(l)
-		b.WriteByte('\n')
-	}
+	head := b.String()
+	b.Reset()
 	for _, it := range v.items[:ob.pos] {
 		switch it.kind {
 		case itDecl:
@@ -39,7 +31,13 @@ func (v *vc) smtRelaxed(ob *obligation) string {
 		}
 	}
 	fmt.Fprintf(&b, "(assert %s)\n(check-sat)\n", ob.goal)
-	return b.String()
+	body := b.String()
+	var lines strings.Builder
+	for _, l := range v.smtLinesFor(body, true) {
+		lines.WriteString(l)
+		lines.WriteByte('\n')
+	}
+	return head + lines.String() + body
 }
 
 // downstreamPanic: after a non-safety obligation (invariant, callee precondition, ...) failed, look for a
